@@ -133,7 +133,7 @@ type item []txSpec
 
 // localView is the local data as a transaction may observe it.
 type localView interface {
-	get(k string) string    // "<nil>" when absent
+	get(k string) string       // "<nil>" when absent
 	list(prefix string) string // "[v1,v2]" values of keys with the prefix in ascending key order
 	set(k, v string)
 }
